@@ -78,6 +78,7 @@ type l1Run struct {
 	gid    int64 // goroutine performing the calls
 	hosts  map[string]*config.Host
 	di     time.Duration
+	idle   time.Duration // longer than any back-off delay of this client
 }
 
 func (r *l1Run) content(id string) []byte {
@@ -490,6 +491,11 @@ func (r *l1Run) l1Exec(ctx context.Context, client *reghttp.Client, done chan<- 
 					time.Sleep(d)
 				}
 				r.rec.add(vtrace.Event{"ev": "note", "what": "pass", "t": r.clk.now()})
+			case "idle":
+				// the client is not used for longer than any back-off delay (this makes the scenario, the
+				// verdict only uses the observed request times)
+				time.Sleep(r.idle)
+				r.rec.add(vtrace.Event{"ev": "note", "what": "idle", "t": r.clk.now()})
 			}
 		}
 		r.touch()
@@ -541,6 +547,14 @@ func runL1(s *l1Scn) *vtrace.Trace {
 	} else if s.Conf.DmaxReal < 0 {
 		dmaxD = 0 // WithDelay then takes 30 x delayInit
 	}
+	r.idle = dmaxD
+	if dmaxD == 0 {
+		r.idle = 30 * r.di
+	}
+	if lim := r.di << uint(s.Conf.R+3); lim < r.idle {
+		r.idle = lim // the delay never exceeds delayInit << backoffCur, and a host is dropped at backoffCur = R
+	}
+	r.idle += 3 * time.Millisecond
 	client := reghttp.NewClient(reghttp.WithConfigHostFn(r.hostCfg), reghttp.WithHTTPClient(&http.Client{Transport: r}),
 		reghttp.WithDelay(r.di, dmaxD), reghttp.WithRetryLimit(s.Conf.R))
 	ctx, cancel := context.WithCancel(context.Background())
